@@ -24,7 +24,7 @@ RULE += ('; also: members declared from the persist() hook or saved manually, an
 ASSUMPTIONS = ['custom loaders are constructible without arguments (the saved state records the loader class)', 'exceptions compare by type and args']
 REQUIRED = ['roundtrips', 'kinds/plain', 'kinds/method', 'kinds/savable', 'kinds/future', 'future_states/pending', 'future_states/result',
             'future_states/exception', 'future_states/exception-falsy', 'future_states/cancelled', 'future_states/result-savable', 'manually_saved', 'hook_declared', 'loader/default', 'loader/global', 'loader/persave', 'loader/unknown', 'loader/ctxreuse',
-            'mutation_probes', 'inherited_checks', 'rebound_name_probes', 'second_saves_same_context', 'refusing_loader_probes', 'global_loader_derived_from_recorded', 'loader/persave-anon']
+            'mutation_probes', 'inherited_checks', 'rebound_name_probes', 'second_saves_same_context', 'refusing_loader_probes', 'global_loader_derived_from_recorded', 'loader/persave-anon', 'registry_loader_probes', 'foreign_method_probes']
 BOUNDS = {'quick': '150 shapes x 4 loader modes', 'thorough': '3000 shapes x 4 loader modes'}
 
 PLAIN_VALUES = [1, 's', None, [1, [2, 3]], {'k': [1, 2], 'd': {'e': 5}}, (1, 2), [], {}, ('run', [10, 20], {'depth': 1}), {'t': ([1], 2)}]
@@ -68,6 +68,17 @@ class LenientCountingLoader(CountingLoader):
         return loaded
 
 
+class RegistryLoader(loaders.ObjectLoader):
+    """A loader backed by a dictionary of the names an application registered (none here)."""
+    registry = {}
+
+    def load_object(self, identifier):
+        return self.registry[identifier]
+
+    def identify_object(self, obj):
+        return next(k for k, v in self.registry.items() if v is obj)
+
+
 class Decoy(Savable):
     """What a loader that resolves names its own way hands out for every generated class."""
 
@@ -86,6 +97,7 @@ class RedirectingLoader(LenientCountingLoader):
 
 
 generated.register(Decoy, 'Decoy')
+generated.register(RegistryLoader, 'RegistryLoader')
 generated.register(RedirectingLoader, 'RedirectingLoader')
 generated.register(CountingLoader, 'CountingLoader')
 generated.register(LenientCountingLoader, 'LenientCountingLoader')
@@ -419,6 +431,35 @@ def run_case(case):
             except BaseException as exc:  # noqa: BLE001
                 viol.append(V('unknown-class-error', 'unknown-class-error:shadow:%s' % type(exc).__name__, 'a class not importable under its name raised %r '
                               'instead of ValueError' % (exc,)))
+            # an application's registry loader (a dictionary of names: an unknown name is a KeyError inside it) given in the load
+            # context: the unknown class is a ValueError to whoever loads, like with any other loader
+            obs['registry_loader_probes'] = 1
+            try:
+                res = Savable.load(copy.deepcopy(bad), persistence.LoadSaveContext(loader=RegistryLoader()))
+                viol.append(V('unknown-class-loaded', 'unknown-class-loaded:registry', 'unknown class name produced %r instead of ValueError' % (res,)))
+            except ValueError:
+                pass
+            except BaseException as exc:  # noqa: BLE001
+                viol.append(V('unknown-class-error', 'unknown-class-error:registry:%s' % type(exc).__name__, 'a class name the registry loader does not know raised %r instead of ValueError' % (exc,)))
+            # a member holding the bound method of ANOTHER object of the class cannot be "rebound to the new object": it is refused
+            # when saving (or comes back bound to that other object's copy), never silently rebound to the loaded object itself
+            if chain:
+                owner, other = cls(shape['members']), cls(shape['members'])
+                mname = next((m for m in dir(type(other)) if m.startswith('meth')), None)
+                member = next((n for n, v in shape['members'].items() if v[0] == 'method'), None)
+                if mname and member:
+                    obs['foreign_method_probes'] = 1
+                    setattr(owner, member, getattr(other, mname))
+                    try:
+                        back = Savable.load(owner.save())
+                        got = getattr(back, member, None)
+                        if getattr(got, '__self__', None) is back:
+                            viol.append(V('foreign-method-rebound', 'foreign-method-rebound', 'member %s held the bound method %s of another object of the class; after '
+                                          'the round trip it is bound to the loaded object itself' % (member, mname)))
+                    except (TypeError, ValueError):
+                        pass
+                    except BaseException as exc:  # noqa: BLE001
+                        viol.append(V('save-raised', 'save-raised:foreign-method:%s' % type(exc).__name__, 'saving an object holding another object\'s bound method raised %r' % (exc,)))
             # a loader named in the load context that refuses the identifier (it did not make it) is not bypassed: the load fails,
             # the class is not fetched through the default loader behind its back
             obs['refusing_loader_probes'] = 1
